@@ -463,6 +463,10 @@ func drive(ck *Check, ctx *Ctx, secs int) int {
 		fmt.Printf("worker %d died: %v\n  case: %.300s\n  output tail:\n%s\n", i, wr.err, wr.crash, lastLines(wr.tail, 25))
 		total.Exhaustive = false
 		if wr.crash == "" || strings.HasPrefix(wr.crash, "replay:") || ck.Replay == nil {
+			if strings.Contains(wr.err.Error(), "signal: killed") && !strings.Contains(wr.err.Error(), "watchdog timeout") {
+				total.Notes = append(total.Notes, fmt.Sprintf("worker %d was killed from outside (SIGKILL) before announcing a case; shard incomplete", i))
+				continue
+			}
 			infra++
 			continue
 		}
@@ -490,10 +494,25 @@ func drive(ck *Check, ctx *Ctx, secs int) int {
 		if fails == 5 {
 			v.Observed = "died in 5 of 5 isolated re-runs: " + lastLines(wr.tail, 6)
 			total.Violate(v)
+		} else if strings.Contains(wr.err.Error(), "signal: killed") && !strings.Contains(wr.err.Error(), "watchdog timeout") {
+			// SIGKILL that is not this driver's watchdog comes from outside (the kernel's OOM
+			// killer on a machine shared with other work): the shard is incomplete, not refuted
+			fmt.Printf("  not reproducible in isolation (%d/5) and killed from outside (SIGKILL): shard %d left incomplete\n", fails, i)
+			total.Notes = append(total.Notes, fmt.Sprintf("worker %d was killed from outside (SIGKILL, e.g. the OOM killer); its case passes in isolation (%d/5 deaths); shard incomplete", i, fails))
 		} else {
-			fmt.Printf("  not reproducible in isolation (%d/5): treated as infrastructure failure of this run\n", fails)
-			total.Notes = append(total.Notes, fmt.Sprintf("worker %d died on a case that does not reproduce in isolation (%d/5)", i, fails))
-			infra++
+			// the announced case passes alone: either the death is external, or an EARLIER case
+			// of the shard damaged the process. The shard is deterministic: run it again.
+			fmt.Printf("  not reproducible in isolation (%d/5): running shard %d again\n", fails, i)
+			rr := spawn(ck, ctx, i, n, nil, wd)
+			if rr.rep != nil {
+				total.Merge(rr.rep)
+				total.Notes = append(total.Notes, fmt.Sprintf("worker %d died once on a case that passes in isolation; the re-run of its shard completed (external cause)", i))
+			} else {
+				v.Key += ":only-within-its-shard"
+				v.What = fmt.Sprintf("process died twice while running shard %d/%d although the announced case passes alone (an earlier case of the shard damages the process)", i, n)
+				v.Observed = "first death: " + lastLines(wr.tail, 4) + " | second death at case " + fmt.Sprintf("%.200s", rr.crash) + ": " + lastLines(rr.tail, 4)
+				total.Violate(v)
+			}
 		}
 	}
 	return finish(ck, ctx, total, infra)
